@@ -247,6 +247,17 @@ func (af *AdaptationField) stuffAF() {
 	}
 }
 
+// ownBytes returns data copied into buf when it could fit into a packet at
+// all. The getters return slices of the packet itself, and a caller may hand
+// (part of) one back to a setter, which moves the fields around before it
+// copies the new value in: the value has to be taken first.
+func ownBytes(data []byte, buf *[PacketSize]byte) []byte {
+	if len(data) > PacketSize {
+		return data // cannot fit, the caller reports that
+	}
+	return buf[:copy(buf[:], data)]
+}
+
 // resizeAF will resize the adaptation field to insert a new field into it.
 // start is the start of the field being manipulated (smallest index)
 // delta is how much shifting needs to be done.
@@ -523,6 +534,7 @@ func (af *AdaptationField) SetTransportPrivateData(data []byte) error {
 	if !af.hasTransportPrivateData() {
 		return gots.ErrNoPrivateTransportData
 	}
+	data = ownBytes(data, &[PacketSize]byte{})
 	delta := len(data) - (af.transportPrivateDataLength() - 1)
 	start := af.transportPrivateDataStart() + 1
 	end := start + len(data)
@@ -592,6 +604,7 @@ func (af *AdaptationField) SetAdaptationFieldExtension(data []byte) error {
 	if !af.hasAdaptationFieldExtension() {
 		return gots.ErrNoAdaptationFieldExtension
 	}
+	data = ownBytes(data, &[PacketSize]byte{})
 	delta := len(data) - (af.adaptationExtensionLength() - 1)
 	start := af.adaptationExtensionStart() + 1
 	end := start + len(data)
